@@ -1135,6 +1135,9 @@ class Tensor:
     def bmm(self, o):
         return matmul(self, o)
 
+    def multinomial(self, num_samples, replacement=False, generator=None):
+        return multinomial(self, num_samples, replacement=replacement)
+
     def uniform_(self, a=0.0, b=1.0):
         r = rand(*self.a.shape)
         self.a[...] = (r * (b - a) + a).a
@@ -1290,6 +1293,8 @@ def _prep_index(t, idx):
             out.append(i)
     if not sym:
         return "basic", tuple(out)
+    # a (by now concrete) 1-D boolean mask next to a symbolic index: same as the integer positions of its True entries
+    out = [np.nonzero(i)[0].astype(np.int64) if isinstance(i, np.ndarray) and i.dtype == np.bool_ and i.ndim == 1 else i for i in out]
     return "sym", tuple(out)
 
 
